@@ -38,7 +38,21 @@ EXTRA = {"explanation": "each function's VCs are generated from its current text
                         "callees are replaced by their contracts"}
 
 sym.OBJ_SCHEMAS["Task"] = {"operator": "Obj:Op", "circuit": "Obj:Circuit", "number_of_shots": "Int"}
-sym.OBJ_SCHEMAS["Op"] = {"is_constant": "Bool"}
+sym.OBJ_SCHEMAS["Op"] = {"is_constant": "Bool", "terms": "Seq[Obj:PTerm]"}
+sym.OBJ_SCHEMAS["PTerm"] = {"coefficient": "Real"}
+_MKEVR = z3.Function("ExpectationValues_of_value", z3.RealSort(), Obj)
+
+
+def _const_sum(op):
+    """sum of the coefficients of the operator's terms (the constant an all-identity operator denotes)"""
+    return sym.seq_sum(sym.seq_map(op.terms, lambda t: t.coefficient))
+
+
+def _nm_value(task):
+    """the result the property prescribes for a not-measured task: the constant for a constant operator, else 0"""
+    c = _const_sum(task.operator)
+    v = z3.If(sym.fml(task.operator.is_constant), sym.lift(c) if not isinstance(c, (int, float)) else z3.RealVal(c), z3.RealVal(0))
+    return SObj("EV", _MKEVR(v))
 sym.OBJ_SCHEMAS["Circuit"] = {"bind": lambda self: (lambda m: SObj("Circuit", _BIND(self.e, sym.lift(m))))}
 _RUN = z3.Function("run_result", Obj, z3.IntSort(), Obj)
 _GETEV = z3.Function("get_expectation_values", Obj, Obj, Obj)
@@ -109,9 +123,24 @@ C_NONMEAS = vc.contract(
     M + ":evaluate_non_measured_estimation_tasks",
     params={"estimation_tasks": "Seq[Obj:Task]"},
     result="List[Obj:EV]",
+    raises={"RuntimeError": "any((not t.operator.is_constant) and t.number_of_shots > 0 for t in estimation_tasks)"},
     ensures="len(result) == len(estimation_tasks) and all(result[j] == NMVAL(estimation_tasks[j]) for j in range(len(result)))",
-    spec={"NMVAL": lambda t: SObj("EV", _NMVAL(sym.lift(t)))},
-    doc="(assumed shape, the value-level contract is checked natively) one result per task, in order")
+    loops={"for#0": {"invariant": "len(expectation_values) == k and all(expectation_values[j] == NMVAL(estimation_tasks[j]) for j in range(k)) "
+                                  "and not any((not estimation_tasks[j].operator.is_constant) and estimation_tasks[j].number_of_shots > 0 for j in range(k))",
+                     "types": {"expectation_values": "List[Obj:EV]", "coefficient": "Real"}}},
+    spec={"NMVAL": _nm_value},
+    doc="one result per task, in order: a constant operator yields exactly the sum of its constant terms' coefficients, a non-constant zero-shot task yields 0; "
+        "a non-constant task that requires shots raises RuntimeError")
+
+# the same function as seen by its caller: an abstract value per task (what that value is, is the proved contract above);
+# its precondition - every task is constant or zero-shot - excludes the RuntimeError and is proved at the call site
+C_NONMEAS_ABS = vc.Contract(
+    key=M + ":evaluate_non_measured_estimation_tasks",
+    params={"estimation_tasks": "Seq[Obj:Task]"},
+    requires="all(t.operator.is_constant or t.number_of_shots == 0 for t in estimation_tasks)",
+    result="List[Obj:EV]",
+    ensures="len(result) == len(estimation_tasks) and all(result[j] == NMVAL(estimation_tasks[j]) for j in range(len(result)))",
+    spec={"NMVAL": lambda t: SObj("EV", _NMVAL(sym.lift(t)))})
 
 AVG_POST = (
     "len(result) == len(estimation_tasks) and all("
@@ -180,6 +209,21 @@ class _NP:
 
 def _stub_ev(values, correlations=None, estimator_covariances=None):
     return SObj("EV", _MKEV(sym.lift(values)))
+
+
+def _stub_ev_value(values, correlations=None, estimator_covariances=None):
+    e = sym.lift(values)
+    if e.sort() == z3.IntSort():
+        e = z3.ToReal(e)
+    return SObj("EV", _MKEVR(e))
+
+
+class _NP1:
+    @staticmethod
+    def asarray(x, *a, **k):
+        if isinstance(x, list) and len(x) == 1 and not isinstance(x[0], list):
+            return x[0]
+        return "<array>"
 
 
 # ------------------------------------------------------------------------------------------------ bounded
@@ -261,9 +305,12 @@ def build(tier, seed):
     fb_bind = vprop.enum_ob("x", [], lambda: range(0, 4), _check_bind_exact, "").run
     obs.append(vprop.fn_ob("C15", C_SPLIT, {}, desc="split: index lists increasing, kind-correct, covering every position; tasks_*[p] = tasks[indices_*[p]] (loop invariant, all lengths)",
                            timeout_ms=30000, fallback=fb_kinds))
+    obs.append(vprop.fn_ob("C15", C_NONMEAS, {}, extra_stubs=lambda: {"ExpectationValues": _stub_ev_value, "np": _NP1}, timeout_ms=30000, fallback=fb_kinds,
+                           desc="evaluate_non_measured_estimation_tasks: one result per task in order; constant operator -> exactly the sum of its constant terms; "
+                                "non-constant zero-shot -> 0; non-constant with shots -> RuntimeError (loop invariant, all lists)"))
     avg_stubs = lambda: {"expectation_values_to_real": _stub_toreal}
     obs.append(vprop.fn_ob("C15", C_AVG, {"split_estimation_tasks_to_measure": C_SPLIT,
-                                          "evaluate_non_measured_estimation_tasks": C_NONMEAS},
+                                          "evaluate_non_measured_estimation_tasks": C_NONMEAS_ABS},
                            extra_stubs=avg_stubs, timeout_ms=30000, fallback=fb_kinds,
                            desc="averaging: result[i] is the value computed from task i for every interleaving of task kinds (two write-back loop invariants; callees by contract)"))
     obs.append(vprop.fn_ob("C15", C_BIND, {}, extra_stubs=lambda: {"EstimationTask": _stub_task}, fallback=fb_bind,
